@@ -23,7 +23,7 @@ theorem getElem?_mid {α} (pre post : List α) (e : α) : (pre ++ e :: post)[pre
 /-- pass 1 of the filter kernel counts the selected entries and their bytes -/
 theorem filterPass1_spec (es : List (List Nat)) (bs : List Bool) (pre post : List (List Nat))
     (hes : es = pre ++ post) (hlen : bs.length = post.length) (count total : Nat) :
-    filterPass1 (offsets es).dropLast ((offsets es).drop 1) bs pre.length count total =
+    filterPass1 (offsetsF es).dropLast ((offsetsF es).drop 1) bs pre.length count total =
       .ok (count + (filterBy bs post).length, total + (filterBy bs post).flatten.length) := by
   induction bs generalizing pre post count total with
   | nil => simp [filterPass1, filterBy]
@@ -52,7 +52,7 @@ theorem filterPass1_spec (es : List (List Nat)) (bs : List Bool) (pre post : Lis
 theorem filterPass2_spec (es : List (List Nat)) (bs : List Bool) (pre post : List (List Nat))
     (hes : es = pre ++ post) (hlen : bs.length = post.length) (sel : List (List Nat)) (kc kt : Nat)
     (hkc : kc = (filterBy bs post).length) (hkt : kt = (filterBy bs post).flatten.length) :
-    filterPass2 (offsets es).dropLast ((offsets es).drop 1) es.flatten bs pre.length (p2State sel kc kt) =
+    filterPass2 (offsetsF es).dropLast ((offsetsF es).drop 1) es.flatten bs pre.length (p2State sel kc kt) =
       .ok (p2State (sel ++ filterBy bs post) 0 0) := by
   induction bs generalizing pre post sel kc kt with
   | nil =>
@@ -82,16 +82,16 @@ theorem filterPass2_spec (es : List (List Nat)) (bs : List Bool) (pre post : Lis
         simp
 
 theorem initP2_eq (count total : Nat) : initP2 count total = .ok (p2State [] count total) := by
-  simp [initP2, p2State, setE, offsets, offsetsFrom, List.replicate_succ, bind, Except.bind, pure, Except.pure]
+  simp [initP2, p2State, setE, offsetsF, offsetsFromF, List.replicate_succ, bind, Except.bind, pure, Except.pure]
 
 theorem p2State_done (sel : List (List Nat)) :
-    (p2State sel 0 0).di = offsets sel ∧ (p2State sel 0 0).dv = sel.flatten := by
+    (p2State sel 0 0).di = offsetsF sel ∧ (p2State sel 0 0).dv = sel.flatten := by
   simp [p2State]
 
 /-- pass 1 of the re-index kernel -/
 theorem indexPass1_spec (v : Variant) (es : List (List Nat)) (idx : List Int) (rows : List (List Nat))
     (h : gather es idx = some rows) (count total : Nat) :
-    indexPass1 v (offsets es).dropLast ((offsets es).drop 1) idx count total =
+    indexPass1 v (offsetsF es).dropLast ((offsetsF es).drop 1) idx count total =
       .ok (count + rows.length, total + rows.flatten.length) := by
   induction idx generalizing rows count total with
   | nil =>
@@ -106,7 +106,7 @@ theorem indexPass1_spec (v : Variant) (es : List (List Nat)) (idx : List Int) (r
       · rename_i k hk
         rw [← normIdx_eq_wrapIdx] at hk
         have hlt := normIdx_lt hk
-        have hg : indexGuard v (offsets es).dropLast.length i = .ok () := by
+        have hg : indexGuard v (offsetsF es).dropLast.length i = .ok () := by
           unfold indexGuard
           rw [cur_length]
           have : ¬ (i < -(es.length : Int) ∨ i ≥ (es.length : Int)) := by
@@ -130,7 +130,7 @@ theorem indexPass1_spec (v : Variant) (es : List (List Nat)) (idx : List Int) (r
 theorem indexPass2_spec (es : List (List Nat)) (idx : List Int) (rows : List (List Nat))
     (h : gather es idx = some rows) (sel : List (List Nat)) (kc kt : Nat)
     (hkc : kc = rows.length) (hkt : kt = rows.flatten.length) :
-    indexPass2 (offsets es).dropLast ((offsets es).drop 1) es.flatten idx (p2State sel kc kt) =
+    indexPass2 (offsetsF es).dropLast ((offsetsF es).drop 1) es.flatten idx (p2State sel kc kt) =
       .ok (p2State (sel ++ rows) 0 0) := by
   induction idx generalizing rows sel kc kt with
   | nil =>
@@ -155,7 +155,7 @@ theorem indexPass2_spec (es : List (List Nat)) (idx : List Int) (rows : List (Li
 
 /-- the first out-of-range subscript stops pass 1 of the repaired kernel with an IndexError, before anything is allocated -/
 theorem indexPass1_err (es : List (List Nat)) (idx : List Int) (h : gather es idx = none) (count total : Nat) :
-    ∃ site, indexPass1 .repaired (offsets es).dropLast ((offsets es).drop 1) idx count total = .error (.oob site) := by
+    ∃ site, indexPass1 .repaired (offsetsF es).dropLast ((offsetsF es).drop 1) idx count total = .error (.oob site) := by
   induction idx generalizing count total with
   | nil => simp [gather] at h
   | cons i is ih =>
@@ -169,7 +169,7 @@ theorem indexPass1_err (es : List (List Nat)) (idx : List Int) (h : gather es id
           have := normIdx_lt hk
           simp at hr; omega
         · rename_i hk; rw [← normIdx_eq_wrapIdx] at hk; exact hk
-      have hg : indexGuard .repaired (offsets es).dropLast.length i =
+      have hg : indexGuard .repaired (offsetsF es).dropLast.length i =
           .error (.oob "index out of bounds for indexed field") := by
         unfold indexGuard
         rw [cur_length]
@@ -198,7 +198,7 @@ theorem indexPass1_err (es : List (List Nat)) (idx : List Int) (h : gather es id
       · rename_i k hk
         rw [← normIdx_eq_wrapIdx] at hk
         have hlt := normIdx_lt hk
-        have hg : indexGuard .repaired (offsets es).dropLast.length i = .ok () := by
+        have hg : indexGuard .repaired (offsetsF es).dropLast.length i = .ok () := by
           unfold indexGuard
           rw [cur_length]
           have : ¬ (i < -(es.length : Int) ∨ i ≥ (es.length : Int)) := by
